@@ -45,7 +45,7 @@ pub fn check_case(rep: &Report, case: &Case, local: &mut Local, worker_counts: &
     local.dim(&format!("bs={}", inp.bs));
     let want: Facts = (inp.rate, inp.ch as u32, inp.bps as u32, inp.len() as u64, md5ref(&samples, inp.bps as usize));
     let mut seen: Vec<(String, Facts)> = Vec::new();
-    for delivery in 0..3u8 {
+    for delivery in 0..6u8 {
         let mut c = case.clone();
         c.input.delivery = delivery;
         let mut runs: Vec<(String, Mode, u8)> = vec![("st".into(), Mode::St, 0), ("frame".into(), Mode::Frame, 0)];
